@@ -460,3 +460,86 @@ def replay_case(case):
     unit = ("reach", case["prop"], case["alg"], _fix_spec(case["spec"]), case["m"], case["K"], np.array(case["mu"]), case["horizon"], case["budget"])
     run_config(unit, res, replay=case["path"])
     return res["violations"]
+
+
+# ---------------------------------------------------------------------------------------------
+# real-model flavour: GP-generated posterior histories (C01 / C05)
+
+
+def run_real_reach(unit, res, replay=None):
+    """Real models and the real pipeline: every scripted observation path (menu of additive offsets
+    replacing the noise) up to `depth`, then noiseless observations, until S is empty.  A history counts
+    only if the truth stayed inside every displayed active region in every round (the property's
+    premise, checked on the real regions); the conclusion is then evaluated on the terminal P."""
+    import torch
+
+    from checks import runs
+
+    _, prop, alg_name, spec, K, cfg, depth, seed = unit
+    core.import_vopy()
+    m = 2
+    base, eps = runs.build_real(alg_name, spec, K, m, cfg, seed)
+    truth = np.array(base.problem.inner.dataset.out_data if hasattr(base.problem.inner, "dataset") else base.problem.inner.problem.dataset.out_data, float)
+    W = np.eye(m) if spec is None else cones.W_of(spec)
+    alpha = oracles.cone_alpha_vec(W)
+    fam = stepmc.family(alg_name)
+    slack = None
+    if fam == "vogp":
+        slack = eps * oracles.u_star(W)[0] if alg_name == "VOGP" else np.full(m, eps)
+    menu = [0.0, 0.15, -0.15]
+    paths = list(itertools.product(range(len(menu)), repeat=depth)) if replay is None else [tuple(replay)]
+    outcomes = set()
+    for path in paths:
+        alg = copy.deepcopy(base)
+        np.random.seed(3 + seed)
+        torch.manual_seed(3 + seed)
+        inner = alg.problem.inner
+        state = {"k": 0}
+
+        def script(x, *a, **kw):
+            vals = np.asarray(inner.evaluate(x, *a, **dict(kw, noisy=False)))
+            k = state["k"]
+            return vals + (menu[path[k]] if k < len(path) else 0.0)
+
+        alg.problem.script = script
+        valid = True
+        done = False
+        for step_i in range(cfg.get("max_rounds", 80)):
+            state["k"] = step_i
+            S0, P0 = set(alg.S), set(alg.P)
+            U0 = set(getattr(alg, "U", ()))
+            active = (S0 | U0) if fam == "paveba" else ((S0 | P0) if fam == "vogp" else S0)
+            res["evaluations"] += 1
+            res["transitions"] += 1
+            done = alg.run_one_step()
+            regs = stepmc.read_regions(alg, sorted(active))
+            if not all(contains(regs[i], truth[i]) for i in active):
+                valid = False
+                break
+            if done:
+                break
+        if not valid:
+            core.bump(res, "real_histories_invalid_premise")
+            continue
+        if not done:
+            core.bump(res, "real_histories_not_terminated")
+            continue
+        core.bump(res, "real_histories_valid_terminated")
+        P = set(alg.P)
+        if prop == "C01":
+            bad = c01_predicate(W, alpha, eps, truth, P)
+        else:
+            bad = c05_state_invariant(W, slack, truth, set(), P)
+        outcomes.add(tuple(sorted(P)))
+        if bad:
+            res["violations"].append(core.violation(
+                prop, {"kind": bad[0][0], "alg": alg_name, "flavour": "real-model"},
+                {"mode": "realreach", "unit": list(unit[:7]) + [seed], "path": list(path)}, "conclusion holds", {"P": sorted(P), "failures": [list(b) for b in bad]},
+                f"{alg_name}(real GP) cone={cones.name(spec) if spec else 'orthant'} eps={eps} truth={truth.tolist()}: valid history with observation offsets {list(path)} ended with P={sorted(P)} violating {bad}"))
+            if len(res["violations"]) >= 3:
+                return
+    res["states"] += len(paths)
+    res["nontrivial"] += len(outcomes)
+    res["outcomes"].append(f"real|{alg_name}|{cones.name(spec) if spec else 'orth'}|{seed}|{sorted(outcomes)}")
+    res["samples"].append({"flavour": "real-model reachability", "alg": alg_name, "cone": cones.name(spec) if spec else "orthant", "K": K, "observation_paths": len(paths),
+                           "terminal_P_sets": sorted(outcomes)})
